@@ -266,7 +266,8 @@ impl<'t, F: Kind + BooleanFunction> Session<'t, F> {
     /// full snapshot of the store
     pub fn snap(&mut self) {
         let live = self.live();
-        let (nodes, ninner, gcn, ron, l2v, v2l, nv, nl) = self.mref.with_manager_shared(|m| {
+        let (nodes, ninner, gcn, ron, l2v, v2l, nv, nl) = self.mref.with_manager_exclusive(|m| {
+            let m = &*m;
             let (l2v, v2l) = F::order(m);
             (
                 F::snapshot(m),
